@@ -264,6 +264,27 @@ func VerifC03_Templates() {
 			vx.Assert("accept-iff-valid:"+o.name, (o.err == nil) == valid)
 		}
 	}
+	// C09 on longer and chunked inputs: a rejected text is reported at the
+	// reference's first offending byte by every front-end and every chunking
+	// (incomplete texts: see the known findings about end-of-input positions)
+	if want.Kind == vref.Reject && !want.BOM {
+		line, col := vref.LineCol(buf, want.At)
+		for _, o := range outs {
+			if o.pan || o.err == nil || o.name == "sen.Parse" {
+				continue
+			}
+			var el, ec int
+			switch pe := o.err.(type) {
+			case *oj.ParseError:
+				el, ec = pe.Line, pe.Column
+			case *gen.ParseError:
+				el, ec = pe.Line, pe.Column
+			default:
+				continue
+			}
+			vx.Assert("pos:"+o.name, vx.And(el == line, ec == col))
+		}
+	}
 	sf := senFamily(buf, chunks)
 	base := sf[0]
 	vx.Assert("no-panic:"+base.name, !base.pan)
